@@ -37,9 +37,11 @@ TIERS = {
     # wall: the tier's budget in seconds; reserve: what trace validation and reporting need at the end.  The harness
     # is given the time that is left (it stops handing out new worlds when the time is up), so the wall time does not
     # depend on the machine's load; the number of exchanges actually executed is measured and reported.
-    "quick": dict(per_class=1, pairs_hot=40, pairs_rest=40, group=8, mutants=["validate"], tv_chunks=6, wall=165, reserve=35),
+    # floor: the least time the exchanges get even when the build (first build after a change of /repo, or waiting for
+    # another check's cargo lock) or the model checker ate the budget - a slow start must not turn into a tool error
+    "quick": dict(per_class=1, pairs_hot=40, pairs_rest=40, group=8, mutants=["validate"], tv_chunks=6, wall=165, reserve=35, floor=75),
     "thorough": dict(per_class=1000, pairs_hot=100000, pairs_rest=700, group=8, mutants=["validate", "check_fees", "restore_fee", "restore_amount"],
-                     tv_chunks=10, wall=1440, reserve=150),
+                     tv_chunks=10, wall=1440, reserve=150, floor=400),
 }
 
 
@@ -266,7 +268,7 @@ def run(tier, replay_path, t0):
     t_exec0 = time.time()
     # wallets and chains live in a directory of this check alone (other checks share harness/target/tmp)
     os.environ.setdefault("VERIF_TMP", workdir("tmp_C02"))
-    budget = max(20, int(T["wall"] - T["reserve"] - (time.time() - t0)))
+    budget = max(T["floor"], int(T["wall"] - T["reserve"] - (time.time() - t0)))
     nd = replay("replay_tamper", {"groups": groups}, "C02", extra_args=["--budget-ms", str(budget * 1000)], timeout=budget + 120)
     events = read_ndjson(nd)
     if len(events) != len(stim):
@@ -292,8 +294,8 @@ def run(tier, replay_path, t0):
     skips = [s for s in skips if s["why"] != "skip:budget"]
     if unrun:
         log("  time budget: %d of %d exchanges were not started" % (len(unrun), len(stim)))
-    if len(unrun) > len(stim) // 2:
-        raise ToolError("the time budget covered less than half of the stimulus (%d of %d not started)" % (len(unrun), len(stim)))
+    if len(unrun) > (3 * len(stim)) // 4:
+        raise ToolError("the time budget covered less than a quarter of the stimulus (%d of %d not started)" % (len(unrun), len(stim)))
     hard_skips = [s for s in skips if not s["why"].startswith("skip:tamper:")]
     if hard_skips:
         log("NONCONFORMANCE: %d cases could not be set up by the harness; first: %s" % (len(hard_skips), json.dumps(hard_skips[0])))
